@@ -137,6 +137,9 @@ class SharedJoin(MVPN):
         cursor += sourceiplen
 
         # Validate group IP length
+        if cursor >= len(packed):
+            # the total length passed the check above but the source took what the group needed
+            raise Notify(3, 5, 'the source and group lengths do not add up to the length of the route')
         groupiplen = int(packed[cursor] / 8)
         if groupiplen != IPv4.BYTES and groupiplen != IPv6.BYTES:
             raise Notify(
